@@ -11,8 +11,12 @@ import (
 func init() { registry["C19"] = checkC19 }
 
 // errReturnBlock: block b returns with a definitely non-nil error.
-func errReturnBlock(b *ssa.BasicBlock) bool {
-	// follow straight-line successors (calls building the error message) up to the return
+func errReturnBlock(b *ssa.BasicBlock) bool { return errReturnVia(nil, b) }
+
+// errReturnVia: entering b from block `from`, control reaches a return of a definitely non-nil error: along
+// straight-line successors (calls building the error message), and through a condition that was computed into a
+// boolean first (`bad := a || b; if bad {...}`): a branch on a phi whose value on the edge taken is a constant.
+func errReturnVia(from, b *ssa.BasicBlock) bool {
 	seen := map[*ssa.BasicBlock]bool{}
 	for b != nil && !seen[b] {
 		seen[b] = true
@@ -22,7 +26,26 @@ func errReturnBlock(b *ssa.BasicBlock) bool {
 			ei := errResultIndex(b.Parent())
 			return ei >= 0 && definitelyNonNilErr(x.Results[ei], b, map[ssa.Value]bool{})
 		case *ssa.Jump:
-			b = b.Succs[0]
+			from, b = b, b.Succs[0]
+		case *ssa.If:
+			ph, isPhi := x.Cond.(*ssa.Phi)
+			if !isPhi || ph.Block() != b || from == nil {
+				return false
+			}
+			taken := -1
+			for i, p := range b.Preds {
+				if p == from && i < len(ph.Edges) {
+					if isConstBool(ph.Edges[i], true) {
+						taken = 0
+					} else if isConstBool(ph.Edges[i], false) {
+						taken = 1
+					}
+				}
+			}
+			if taken < 0 {
+				return false
+			}
+			from, b = b, b.Succs[taken]
 		default:
 			return false
 		}
@@ -155,7 +178,7 @@ func checkC19(c *Check) {
 					}
 					for _, rr := range *cond.Referrers() {
 						if ifi, isIf := rr.(*ssa.If); isIf && ifi.Cond == cond {
-							if errReturnBlock(ifi.Block().Succs[0]) {
+							if errReturnVia(ifi.Block(), ifi.Block().Succs[0]) {
 								cs.ok = true
 							} else {
 								cs.why = "the out-of-range edge does not return an error"
@@ -446,6 +469,16 @@ func checkC19(c *Check) {
 		n++
 		caller := fnName(call.Parent())
 		ok := caller == "x/deployment/handler.(msgServer).CreateDeployment" || caller == "x/deployment.InitGenesis"
+		if !ok {
+			// a new helper that only the admission handler (or genesis import) calls
+			if hfn := call.Parent(); hfn != nil && isNewFunc(hfn) {
+				for _, root := range []*ssa.Function{l.msgServerMethod("x/deployment/handler", "CreateDeployment"), l.Func("x/deployment", "", "InitGenesis")} {
+					if root != nil && inCodeOf(root, hfn) {
+						ok = true
+					}
+				}
+			}
+		}
 		c.Ob("R3", "deployment constructor called from "+caller, call.Pos(), ok, "deployments can be stored without passing admission")
 	}
 	if n < 2 {
